@@ -65,6 +65,8 @@ def _match_field(t, w: int):
 
 def _topbit_test(c, B, w):
     """Does condition c test bit w-1 of B (value B < 2^w)?  Returns True/False(polarity) or None."""
+    if w < 1:
+        return None
     top = 1 << (w - 1)
     if c == ("bin", "&", B, ("const", top)) or c == ("bin", "&", ("const", top), B):
         return True
@@ -127,11 +129,6 @@ def field_values(eng: Engine, ctx: Ctx, rid1: str, rid2: str, rid3: str, rid5: s
         node = node.node if node is not None else f.node
         classes.setdefault((typ, w, res), 0)
         classes[(typ, w, res)] += 1
-        if len(valsets) != 1 or valsets[0].guards:
-            fail(rid2, key, "one unconditional store of the field value", "exactly one setattr(self, <name>, value)", f"{len(valsets)} store(s)" + (" (conditional)" if valsets and valsets[0].guards else ""), node)
-            continue
-        V = valsets[0].term[3][2]
-        # ---- D5 offset advance
         wsym = None
         if key in var_width:
             a, b = var_width[key]
@@ -141,7 +138,26 @@ def field_values(eng: Engine, ctx: Ctx, rid1: str, rid2: str, rid3: str, rid5: s
         else:
             symn = lambda t: "off" if t == m.offp else ("PB" if t == L else show(t))  # noqa: E731
             wpoly = Poly.const(w)
-        if len(rets) != 1 or rets[0].guards:
+        def bounds_literal(c, pol, symn=symn, wpoly=wpoly):
+            """literal states offset + w <= payload bits (an explicit in-bounds guard)."""
+            if c[0] != "cmp" or c[1] not in ("<", "<=", ">", ">="):
+                return False
+            pa, pb = to_poly(c[2], symn), to_poly(c[3], symn)
+            if pa is None or pb is None:
+                return False
+            diff = pa - pb
+            wp = wpoly
+            inb = Poly.sym("off") + wp - Poly.sym("PB")
+            op = c[1] if pol else {"<": ">=", "<=": ">", ">": "<=", ">=": "<"}[c[1]]
+            return (diff == inb and op == "<=") or (diff == -inb and op == ">=") or (diff == inb - 1 and op == "<") or (diff == -inb + 1 and op == ">")
+
+        guards_ok = all(bounds_literal(c, pol) for c, pol in (valsets[0].guards if len(valsets) == 1 else ()))
+        if len(valsets) != 1 or not guards_ok:
+            fail(rid2, key, "one unconditional store of the field value", "exactly one setattr(self, <name>, value), guarded at most by an in-bounds test", f"{len(valsets)} store(s)" + (" (conditional)" if valsets and valsets[0].guards else ""), node)
+            continue
+        V = valsets[0].term[3][2]
+        # ---- D5 offset advance
+        if len(rets) != 1 or not all(bounds_literal(c, pol) for c, pol in rets[0].guards):
             fail(rid5, key, "single unconditional return", "return offset + w", f"{len(rets)} return(s)", node)
         else:
             rp = to_poly(rets[0].term, symn)
@@ -246,3 +262,368 @@ def field_values(eng: Engine, ctx: Ctx, rid1: str, rid2: str, rid3: str, rid5: s
     ctx.instance("descriptors specialised", n, 500)
     ctx.instance("type specialisations", len({k[0] for k in classes}), 10)
     return m
+
+
+# ============================================================================ D4 naming
+def naming(eng: Engine, ctx: Ctx, rid: str, model: DecoderModel):
+    ctx.rule(rid, "stored attribute name = field key + one '<sep>{i:02d}' per index level (text fields: the key only), stored on the instance")
+    f = model.f
+    se = SymEval(eng.ce, f).run()  # generic key
+    sep, spec = SH.decoder_suffix_format(eng)
+    anamT = ("param", model.anam)
+    n = 0
+    loops = [(lid, info) for lid, info in se.loop_info.items() if info.get("iter") == model.idxp]
+    loc = eng.loc(f, f.node)
+    ctx.check(len(loops) == 1, rid, f.qualname, "loop over the index stack", expected="one `for i in index` building the indexed name", found=str(len(loops)), **loc)
+    if len(loops) != 1:
+        return
+    lid, info = loops[0]
+    names = [v for v in info["assigned"] if (info.get("pre") or {}).get(v) == anamT]
+    ctx.check(len(names) == 1, rid, f.qualname, "indexed name starts as the field key", expected="name variable initialised with the key parameter", found=str(names), **eng.loc(f, info["node"]))
+    if len(names) != 1:
+        return
+    nv = names[0]
+    elem = ("elem", model.idxp, lid)
+    body = (info.get("body_end") or {}).get(nv)
+    app = ("bin", "+", ("loop", lid, nv), ("fstr", (("const", sep), ("fmt", elem, spec, -1))))
+    okb = body == app or (body is not None and body[0] == "ite" and body[2] == app and body[3] == ("loop", lid, nv) and body[1] in (("cmp", ">", elem, ("const", 0)), ("cmp", ">=", elem, ("const", 1)), ("cmp", "!=", elem, ("const", 0)), elem))
+    ctx.check(bool(okb), rid, f.qualname, "suffix appended per index level", expected=f"name += f'{sep}{{i:{spec}}}' for every level (i >= 1)", found=show(body)[:120] if body else "-", **eng.loc(f, info["node"]))
+    ctx.check(spec == "02d" and sep == "_", rid, f.qualname, "suffix format", expected="'_' + two-digit zero-padded index", found=f"{sep!r} + ':{spec}'", **eng.loc(f, info["node"]))
+    # the generic store uses that name; text fields use the bare key
+    sets = [e for e in se.effects if e.kind == "call" and e.term[2] == ("builtin", "setattr") and len(e.term[3]) == 3]
+    tc = eng.tables.type_consts
+    gen = [e for e in sets if e.term[3][1] in (("loopout", lid, nv), anamT)]
+    for e in gen:
+        n += 1
+        isstr = any(c[0] == "cmp" and c[1] == "==" and c[3] == ("const", tc["STR"]) and pol for c, pol in e.guards)
+        notstr = any(c[0] == "cmp" and c[1] == "==" and c[3] == ("const", tc["STR"]) and not pol for c, pol in e.guards)
+        if e.term[3][1] == anamT:
+            ctx.check(isstr, rid, f.qualname, norm(e.node)[:70], expected="bare key only for text fields", found=guard_text(e.guards)[:80], **eng.loc(f, e.node))
+        else:
+            ctx.check(notstr or not isstr, rid, f.qualname, norm(e.node)[:70], expected="indexed name for all other fields", found=guard_text(e.guards)[:80], **eng.loc(f, e.node))
+        ctx.check(e.term[3][0] == ("self",), rid, f.qualname, f"{norm(e.node)[:50]} target", expected="stored on the instance", found=show(e.term[3][0]), **eng.loc(f, e.node))
+    ctx.instance("generic value stores", len(gen), 2)
+
+
+# ============================================================================ D5b offset threading
+def threading(eng: Engine, ctx: Ctx, rid: str, model: DecoderModel):
+    ctx.rule(rid, "linear threading: in the driver and the three recursive routines every decoder call receives the current offset (parameter, previous call's result or the "
+                  "loop-carried value) and its result is consumed by the next call or the return; the driver starts at offset 0 with a fresh index stack")
+    cyc = set(eng.decoder_cycle) | {eng.single_field_routine}
+    names = {q.split(".")[-1]: q for q in cyc}
+    single = eng.single_field_routine.split(".")[-1]
+    for q in sorted(set(eng.decoder_cycle) | {eng.attributes_driver}):
+        f = eng.repo.func(q)
+        ctx.touch(func=q)
+        se = eng.symeval(q)
+        offp = ("param", "offset") if "offset" in f.params else None
+        calls = [e for e in se.effects if e.kind == "call" and e.term[2][0] == "attr" and e.term[2][1] == ("self",) and e.term[2][2] in names]
+        loc = eng.loc(f, f.node)
+        if not calls:
+            ctx.bad(rid, q, "decoder calls", expected="at least one call into the decoder", found="none", **loc)
+            continue
+        results = {}  # call term -> offset-result term
+        for e in calls:
+            results[e.term] = e.term if e.term[2][2] == single else ("proj", e.term, 0)
+        res_terms = set(results.values())
+
+        def off_arg(e):
+            callee = eng.repo.func(names[e.term[2][2]])
+            params = callee.params[1:]
+            kw = dict(e.term[4])
+            if "offset" in kw:
+                return kw["offset"]
+            i = params.index("offset") if "offset" in params else None
+            return e.term[3][i] if i is not None and i < len(e.term[3]) else None
+
+        def valid(t, seen=frozenset()):
+            """t is a legitimate 'current offset' value (greatest fixpoint over loop-carried symbols)."""
+            if t == offp or t in res_terms:
+                return True
+            if q == eng.attributes_driver and t == ("const", 0):
+                return True
+            if t[0] == "ite":
+                return valid(t[2], seen) and valid(t[3], seen)
+            if t[0] in ("loop", "loopout"):
+                key = (t[1], t[2])
+                if key in seen:
+                    return True
+                info = se.loop_info.get(t[1])
+                if not info:
+                    return False
+                pre = (info.get("pre") or {}).get(t[2])
+                end = (info.get("body_end") or {}).get(t[2])
+                seen2 = seen | {key}
+                okp = pre is not None and valid(pre, seen2)
+                oke = end is None or valid(end, seen2)
+                return okp and oke
+            return False
+
+        consumed = set()
+        ret_terms = [e.term for e in se.effects if e.kind == "return"]
+        for e in calls:
+            a = off_arg(e)
+            ok = a is not None and valid(a)
+            ctx.check(ok, rid, q, f"offset passed to {norm(e.node)[:60]}", expected="the current offset (parameter / previous result / loop-carried)", found=show(a)[:80] if a is not None else "missing", **eng.loc(f, e.node))
+        # consumption: each result flows into a later argument, a loop-carried value or the return
+        pool = []
+        for e in calls:
+            a = off_arg(e)
+            if a is not None:
+                pool.append(a)
+        for info in se.loop_info.values():
+            pool.extend(v for v in (info.get("body_end") or {}).values())
+        pool.extend(ret_terms)
+        for e in calls:
+            r = results[e.term]
+            used = any(mentions(t, lambda s, r=r: s == r) for t in pool)
+            ctx.check(used, rid, q, f"result of {norm(e.node)[:60]}", expected="consumed by the next call or the return", found="offset result dropped", **eng.loc(f, e.node))
+        if q != eng.attributes_driver:
+            for t in ret_terms:
+                ok = t[0] == "tuple" and len(t[1]) == 2 and valid(t[1][0])
+                ctx.check(ok, rid, q, "returned offset", expected="(current offset, index)", found=show(t)[:100], **loc)
+        else:
+            # fresh index stack
+            lists = [v for info in se.loop_info.values() for k, v in (info.get("pre") or {}).items() if v[0] == "list" and not v[1]]
+            ctx.check(bool(lists), rid, q, "index stack", expected="fresh empty list per parse", found="-" if not lists else "ok", **loc)
+    ctx.instance("threaded routines", len(eng.decoder_cycle) + 1, 4)
+
+
+# ============================================================================ D6/D7/D8 groups, optional groups, dispatch
+def _no_self_calls(node, seq):
+    return seq is not None and len(seq) <= 8 and not any(
+        isinstance(n, ast.Call) and isinstance(n.func, ast.Attribute) and isinstance(n.func.value, ast.Name) and n.func.value.id == "self" for b in node.body for n in ast.walk(b))
+
+
+def groups(eng: Engine, ctx: Ctx, rid6: str, rid7: str, rid8: str, model: DecoderModel):
+    T = eng.tables
+    facts = eng.decoder_facts
+    sep, spec = SH.decoder_suffix_format(eng)
+    g = eng.repo.func(eng.group_routine)
+    o = eng.repo.func(eng.optional_routine)
+    d = eng.repo.func(eng.dispatch_routine)
+    for f in (g, o, d):
+        ctx.touch(func=f.qualname)
+    ctx.rule(rid6, "repeating groups (specialised on every distinct count designator of the tables): count = the int, or getattr(self, NAME + n index suffixes), +1 for the layer counter; "
+                   "index level pushed before, set to i+1 per iteration, popped after; body iterated in definition order with threaded offset")
+    designators = {}
+    optionals = {}
+    for tname, ident, dd, prov in T.definitions():
+        for occ in T.walk(ident, dd):
+            if occ.kind == "group":
+                designators.setdefault(occ.count, (ident, occ))
+            elif occ.kind == "optional":
+                optionals.setdefault(occ.count, (ident, occ))
+    adefp = g.params[1]
+    nb = 0
+    bad = {}
+    for des, (ident, occ) in sorted(designators.items(), key=lambda kv: str(kv[0])):
+        nb += 1
+        gd = ("typed", dict, "gdict")
+        se = SymEval(eng.ce, g, bind={adefp: ("tuple", (("const", des), gd))}, unroll=_no_self_calls).run()
+        # the count: argument of the range() the iteration loop runs over
+        loops = [(lid, info) for lid, info in se.loop_info.items() if info.get("unrolled") is None]
+        outer = [(lid, info) for lid, info in loops if any(e.loops and e.loops[0] == lid and len(e.loops) == 2 for e in se.effects)]
+        if len(outer) != 1:
+            bad.setdefault("iteration loops", []).append((des, f"{len(outer)} outer loops"))
+            continue
+        lid, info = outer[0]
+        it = info.get("iter")
+        if is_const(it) and isinstance(it[1], range):
+            cnt = ("const", len(it[1])) if it[1].start == 0 and it[1].step == 1 else None
+        elif it[0] == "call" and it[2] == ("builtin", "range") and len(it[3]) == 1:
+            cnt = it[3][0]
+        else:
+            cnt = None
+        if isinstance(des, int):
+            want = ("const", des)
+        else:
+            base, _, lvl = des.partition("+")
+            name = ("const", base)
+            for k in range(int(lvl) if lvl else 0):
+                name = ("bin", "+", name, ("fstr", (("const", sep), ("fmt", ("idx", ("param", "index"), ("const", k)), spec, -1))))
+            want = ("GETATTR", name)
+        okc = False
+        if cnt is not None:
+            if isinstance(des, int):
+                okc = cnt == want
+            else:
+                core = cnt
+                plus = 0
+                if core[0] == "bin" and core[1] == "+" and core[3] == ("const", 1):
+                    core, plus = core[2], 1
+                okc = core[0] == "call" and core[2] == ("builtin", "getattr") and core[3] == (("self",), want[1]) and plus == (1 if des.partition("+")[0] in facts["count_plus_one"] else 0)
+        if not okc:
+            bad.setdefault("count", []).append((des, show(cnt)[:90] if cnt else show(it)[:90]))
+            continue
+        # index discipline
+        idx0 = ("param", "index")
+        pushes = [e for e in se.effects if e.kind == "call" and e.term[2] == ("attr", idx0, "append") and e.term[3] == (("const", 0),) and not e.loops]
+        pops = [e for e in se.effects if e.kind == "call" and e.term[2][0] == "attr" and e.term[2][2] == "pop" and not e.term[3] and not e.loops]
+        sets = [e for e in se.effects if e.kind == "setitem" and e.loops == (lid,) and e.target[2] == ("const", -1)]
+        elem = ("elem", it, lid)
+        oki = (len(pushes) == 1 and len(pops) == 1 and len(sets) == 1 and sets[0].term == ("bin", "+", elem, ("const", 1)) and pushes[0].seq < sets[0].seq < pops[0].seq
+               and pops[0].term[2][1][0] in ("loopout", "param"))
+        if not oki:
+            bad.setdefault("index discipline", []).append((des, f"push {len(pushes)} set {[show(s.term) for s in sets]} pop {len(pops)}"))
+            continue
+        # body: inner loop over the group dict calling the dispatcher with (name, dict, offset, index)
+        inner = [e for e in se.effects if e.kind == "call" and len(e.loops) == 2 and e.loops[0] == lid and is_self_call(e.term, d.name)]
+        okb = len(inner) == 1 and se.loop_info[inner[0].loops[1]].get("iter") == gd and inner[0].term[3][0] == ("elem", gd, inner[0].loops[1]) and inner[0].term[3][1] == gd
+        if not okb:
+            bad.setdefault("body iteration", []).append((des, ", ".join(show(e.term)[:60] for e in inner) or "no dispatcher call"))
+    loc = eng.loc(g, g.node)
+    for what, items in bad.items():
+        ctx.bad(rid6, g.qualname, what, expected="reference group semantics for every count designator", found=f"{len(items)} of {nb} designators, e.g. {items[0][0]!r}: {items[0][1]}", detail="designators: " + ", ".join(repr(i[0]) for i in items[:8]), **loc)
+    if not bad:
+        ctx.ok(rid6, g.qualname, "all count designators", found=f"{nb} distinct designators specialised: ints, names, '+n' names", **loc)
+    from ..engine import oracle as _oracle
+
+    m1 = set(_oracle("lengths.json").get("minus_one_counters", []))
+    ctx.check(set(facts["count_plus_one"]) == m1, rid6, g.qualname, "counters transmitted as N-1", expected=f"+1 exactly for {sorted(m1)}", found=str(sorted(facts["count_plus_one"])), **loc)
+    ctx.instance("count designators", nb, 25)
+
+    # ---- D7 optional groups
+    ctx.rule(rid7, "optional groups: decoded iff getattr(self, name) == constant; otherwise zero bits consumed (offset and index returned unchanged)")
+    no = 0
+    for des, (ident, occ) in sorted(optionals.items(), key=lambda kv: str(kv[0])):
+        no += 1
+        gd = ("typed", dict, "gdict")
+        se = SymEval(eng.ce, o, bind={o.params[1]: ("tuple", (("const", des), gd))}).run()
+        calls = [e for e in se.effects if e.kind == "call" and is_self_call(e.term, d.name)]
+        want_c = ("cmp", "==", None, ("const", des[1]))
+        okc = len(calls) == 1 and len(calls[0].guards) == 1 and calls[0].guards[0][1] is True
+        if okc:
+            c = calls[0].guards[0][0]
+            okc = c[0] == "cmp" and c[1] == "==" and c[3] == ("const", des[1]) and c[2][0] == "call" and c[2][2] == ("builtin", "getattr") and c[2][3] == (("self",), ("const", des[0]))
+        ctx.check(okc, rid7, o.qualname, f"condition for {des!r}", expected=f"getattr(self, {des[0]!r}) == {des[1]!r}", found=guard_text(calls[0].guards)[:90] if calls else "no call", **eng.loc(o, o.node))
+        rets = [e for e in se.effects if e.kind == "return"]
+        okr = len(rets) == 1 and rets[0].term[0] == "tuple" and len(rets[0].term[1]) == 2
+        if okr:
+            a, b = rets[0].term[1]
+            okr = a[0] == "ite" and a[3] == ("param", "offset") and b[0] == "ite" and b[3] == ("param", "index") and a[1] == b[1] == (calls[0].guards[0][0] if calls else None)
+        ctx.check(okr, rid7, o.qualname, f"absent group {des!r} consumes nothing", expected="(offset, index) unchanged when the condition fails", found=show(rets[0].term)[:100] if rets else "-", **eng.loc(o, o.node))
+    ctx.instance("optional designators", no, 4)
+
+    # ---- D8 dispatch
+    ctx.rule(rid8, "dispatch on the definition value: (tuple whose first element is a tuple) -> optional group; other tuple -> repeating group; anything else -> single field")
+    se = eng.symeval(d.qualname)
+    adef = None
+    for e in se.effects:
+        if e.kind == "call" and e.term[2] == ("builtin", "isinstance"):
+            adef = e.term[3][0]
+            break
+    want_adef = ("idx", ("param", d.params[2]), ("param", d.params[1])) if len(d.params) > 2 else None
+    ctx.check(adef == want_adef, rid8, d.qualname, "definition lookup", expected="pdict[anam]", found=show(adef)[:60] if adef else "-", **eng.loc(d, d.node))
+    shapes = {"optional": ("tuple", (("tuple", (("typed", str, "n"), ("typed", int, "c"))), ("typed", dict, "g"))), "group": ("tuple", (("typed", str, "n"), ("typed", dict, "g"))),
+              "group-int": ("tuple", (("const", 3), ("typed", dict, "g"))), "single": ("const", "label")}
+    target = {"optional": o.name, "group": g.name, "group-int": g.name, "single": eng.single_field_routine.split(".")[-1]}
+    for kind, shape in shapes.items():
+        def ov(t, shape=shape):
+            return shape if t == want_adef else None
+        s2 = SymEval(eng.ce, d, override=ov).run()
+        calls = [e for e in s2.effects if e.kind == "call" and e.term[2][0] == "attr" and e.term[2][1] == ("self",)]
+        ok = len(calls) == 1 and calls[0].term[2][2] == target[kind] and not calls[0].guards
+        ctx.check(ok, rid8, d.qualname, f"{kind} definition", expected=f"exactly one call of {target[kind]}", found=", ".join(f"{c.term[2][2]} under {guard_text(c.guards)[:40]}" for c in calls) or "no call", **eng.loc(d, d.node))
+        if ok and kind != "single":
+            ctx.check(calls[0].term[3][0] == shape, rid8, d.qualname, f"{kind}: definition handed on", expected="the (designator, dict) tuple", found=show(calls[0].term[3][0])[:60], **eng.loc(d, d.node))
+        if ok and kind == "single":
+            ctx.check(calls[0].term[3][0] == ("param", d.params[1]), rid8, d.qualname, "single: field key handed on", expected="anam", found=show(calls[0].term[3][0])[:60], **eng.loc(d, d.node))
+    ctx.instance("dispatch shapes", len(shapes), 4)
+
+
+# ============================================================================ D9b harmonic coefficient counts
+def harmonic_counts(eng: Engine, ctx: Ctx, rid: str, model: DecoderModel):
+    ctx.rule(rid, "4076_201 coefficient counts: nC = (N+1)(N+2)/2 - (N-M)(N-M+1)/2, nS = nC - (N+1), N = degree field + 1, M = order field + 1 (polynomial identity), read at the current layer index")
+    T = eng.tables
+    facts = eng.decoder_facts
+    hc = {c: s for c, s in facts["derived_counters"].items() if c.startswith("_")}
+    if not hc:
+        ctx.bad(rid, model.f.qualname, "coefficient counters", expected="derived counters for the 4076_201 coefficient groups", found="none extracted", **eng.loc(model.f, model.f.node))
+        return
+    src = next(iter(hc.values()))
+    se = model.spec(src)
+    f = model.f
+    sep, spec = SH.decoder_suffix_format(eng)
+    # degree / order fields: the two depth-1 fields preceding the coefficient groups in the definition
+    igs = T.tables["RTCM_PAYLOADS_GET_IGS"]
+    ident = next((i for i, dd in igs.items() if any(o.kind == "group" and o.count in hc for o in T.walk(i, dd))), None)
+    d1 = [o.key for o in T.walk(ident, igs[ident]) if o.kind == "field" and o.depth == 1] if ident else []
+    if len(d1) < 3 or d1[-1] != src:
+        ctx.bad(rid, f.qualname, "degree/order fields", expected="layer group = (height, degree, order) then the coefficient groups", found=str(d1), **eng.loc(f, f.node))
+        return
+    deg, order = d1[-2], d1[-1]
+
+    def symn(t):
+        if t[0] == "call" and t[2] == ("builtin", "getattr") and len(t[3]) == 2 and t[3][0] == ("self",):
+            nm = t[3][1]
+            for key, sym in ((deg, "a"), (order, "b")):
+                if nm == ("fstr", (("const", key + sep), ("fmt", ("idx", model.idxp, ("const", 0)), spec, -1))):
+                    return sym
+        return show(t)
+
+    N, M = Poly.sym("a") + 1, Poly.sym("b") + 1
+    nC = ((N + 1) * (N + 2)).div_const(2) - ((N - M) * (N - M + 1)).div_const(2)
+    nS = nC - (N + 1)
+    counters = [o.count for o in T.walk(ident, igs[ident]) if o.kind == "group" and o.count in hc]
+    want = dict(zip(counters, (nC, nS)))
+    sets = {e.term[3][1][1]: e for e in se.effects if e.kind == "call" and e.term[2] == ("builtin", "setattr") and is_const(e.term[3][1]) and e.term[3][1][1] in hc}
+    for cnt in counters:
+        e = sets.get(cnt)
+        if e is None:
+            ctx.bad(rid, f.qualname, f"store of {cnt}", expected="setattr(self, counter, count)", found="missing", **eng.loc(f, f.node))
+            continue
+        p = to_poly(e.term[3][2], symn)
+        vs = [x for x in se.effects if x.kind == "call" and x.term[2] == ("builtin", "setattr") and len(x.term[3]) == 3 and not is_const(x.term[3][1])]
+        base_guards = vs[0].guards if vs else ()
+        ctx.check(p is not None and p == want[cnt] and e.guards == base_guards, rid, f.qualname, f"{cnt}", expected=repr(want[cnt]), found=repr(p) if p is not None else show(e.term[3][2])[:100], **eng.loc(f, e.node))
+    ctx.instance("coefficient counters", len(counters), 2)
+
+
+# ============================================================================ D10 / D11
+def payload_uses(eng: Engine, ctx: Ctx, rid: str, model: DecoderModel):
+    ctx.rule(rid, "nothing else reads the payload: the payload, its integer image and its bit length are loaded only by identity, the extraction, serialize, repr and the payload getter, and stored only in the constructor")
+    mod, cls = eng.message_cls.split(".")
+    fields = {model.payload_field: {"identity", "serialize", "__repr__", "payload", "__init__"}, model.int_field[0]: {eng.single_field_routine.split(".")[-1], "__init__"}, model.blen_field[0]: {eng.single_field_routine.split(".")[-1], "__init__"}}
+    n = 0
+    for f in eng.repo.all_funcs():
+        for node in walk_no_nested(f.node):
+            if isinstance(node, ast.Attribute) and node.attr in fields:
+                n += 1
+                inside = f.module == mod and f.cls == cls
+                okf = inside and f.name in fields[node.attr]
+                if isinstance(node.ctx, ast.Store):
+                    okf = inside and f.name == "__init__"
+                ctx.check(okf, rid, f.qualname, norm(eng.repo.enclosing_stmt(node))[:90], expected=f"self.{node.attr} used only in {sorted(fields[node.attr])}", found=f"{'store' if isinstance(node.ctx, ast.Store) else 'load'} in {f.qualname}", **eng.loc(f, node))
+            if isinstance(node, ast.Constant) and isinstance(node.value, str) and node.value in fields and f.name != "__init__":
+                par = eng.repo.parent(node)
+                if isinstance(par, ast.Call) and norm(par.func) in ("getattr", "setattr", "delattr"):
+                    n += 1
+                    ctx.bad(rid, f.qualname, norm(par)[:80], expected="payload fields are not accessed reflectively", found=norm(par.func), **eng.loc(f, node))
+    ctx.instance("payload field uses", n, 9)
+
+
+def public_attributes(eng: Engine, ctx: Ctx, rid: str, model: DecoderModel):
+    ctx.rule(rid, "no other public attribute: setattr sites store only the field-derived name, the MSM counters and names starting with '_'; direct stores outside the constructor are private")
+    mod, cls = eng.message_cls.split(".")
+    T = eng.tables
+    allowed_consts = {T.const.get("NSAT"), T.const.get("NSIG"), T.const.get("NCELL")}
+    nset = 0
+    for f in eng.repo.methods(mod, cls):
+        if f.name == "__setattr__":
+            continue
+        se = eng.symeval(f.qualname)
+        for e in se.effects:
+            if e.kind == "call" and e.term[2] == ("builtin", "setattr") and len(e.term[3]) == 3 and e.term[3][0] == ("self",):
+                nset += 1
+                nm = e.term[3][1]
+                ok = False
+                why = show(nm)[:50]
+                if is_const(nm) and isinstance(nm[1], str):
+                    ok = nm[1].startswith("_") or nm[1] in allowed_consts or (f.qualname == eng.stub_routine and nm[1] in T.fields)
+                elif f.qualname == eng.single_field_routine:
+                    ok = nm == ("param", model.anam) or (nm[0] == "loopout" and True)
+                ctx.check(ok, rid, f.qualname, norm(e.node)[:80], expected="field-derived name, MSM counter or private name", found=why, **eng.loc(f, e.node))
+            if e.kind in ("store", "aug") and e.target and e.target[0] == "self" and f.name != "__init__":
+                ctx.check(e.target[1].startswith("_"), rid, f.qualname, norm(e.node)[:80], expected="private name", found=e.target[1], **eng.loc(f, e.node))
+    ctx.instance("setattr sites", nset, 8)
